@@ -44,7 +44,8 @@ ASSUMPTIONS = ["fresh reference power flows use the same runpp options as run_ti
                "networks have contiguous element indices, so positional and label addressing of output columns coincide"]
 
 PROFILES = ["simple", "dist_radial", "weakly_meshed", "full_mix", "transmission", "multi_island", "corpus", "corpus"]
-CORPUS = ["case9", "case14", "example_multivoltage", "cigre_mv", "case30", "simple_four_bus_system", "mv_oberrhein_half"]
+CORPUS = ["case9", "case14", "example_multivoltage", "cigre_mv", "case30", "simple_four_bus_system", "case9", "case14",
+          "example_multivoltage", "cigre_mv", "mv_oberrhein_half"]
 
 LINE_EL_COLS = ["length_km", "r_ohm_per_km", "x_ohm_per_km", "c_nf_per_km"]
 CTRL_VARS = {
@@ -364,7 +365,7 @@ def open_trafo_switch(net):
     return False
 
 
-def classify_values(bad, req, base, ctrls, time_steps, kw, ow, all_rec, rec_trafo, eligible):
+def classify_values(bad, req, base, ctrls, time_steps, kw, ow, all_rec, rec_trafo, eligible, stale_ppc_buses=None):
     if not all(b[1] == "value" for b in bad):
         return None
     line_ctrl = [c for c in ctrls if c["element"] == "line" and c["variable"] in LINE_EL_COLS]
@@ -379,21 +380,31 @@ def classify_values(bad, req, base, ctrls, time_steps, kw, ow, all_rec, rec_traf
         for i, _, _, _, mask, got, e in bad:
             t, v, idx, ek, en = req[i]
             if t not in ("res_line", "res_trafo", "res_trafo3w") or ek:
-                return None
+                ok = False
+                break
             inact = inactive_branches(base, t[4:])
             ok &= bool(np.isnan(got[mask]).all() and (e[mask] == 0).all() and inact[np.nonzero(mask)[1]].all())
         if ok:
             return "batch_read_nan_for_inactive_branch"
+    if eligible and stale_ppc_buses is not None and stale_ppc_buses[0] != stale_ppc_buses[1]:
+        # OutputWriter._init_ppc_logging sizes its buffers from a net._ppc left over from an earlier power flow of another
+        # topology; every _log_ppc call then fails (exception swallowed) and the zero-initialised buffers are reported
+        if all((np.nan_to_num(b[5][b[4]]) == 0).all() for b in bad):   # voltages 0, branch quantities 0 or NaN
+            return "batch_read_buffer_from_stale_ppc"
     if all_rec and rec_trafo and open_trafo_switch(base) and all(not b[4][0].any() for b in bad):
         return "recycle_trafo_open_switch"     # first step (full power flow) right, later steps wrong
     return None
 
 
 def _tb_functions(exc):
-    names, tb = set(), exc.__traceback__
-    while tb is not None:
-        names.add(tb.tb_frame.f_code.co_name)
-        tb = tb.tb_next
+    names, seen = set(), set()
+    while exc is not None and id(exc) not in seen:     # run_time_step re-raises a bare exception class: follow the context
+        seen.add(id(exc))
+        tb = exc.__traceback__
+        while tb is not None:
+            names.add(tb.tb_frame.f_code.co_name)
+            tb = tb.tb_next
+        exc = exc.__cause__ or exc.__context__
     return names
 
 
@@ -464,6 +475,14 @@ def run_case(seed, tier, case_no):
     if np.isnan(np.concatenate([e.ravel() for e in exp.values()])).any():
         tags.add("nan_cells")
 
+    stale = None
+    if net._ppc is not None and eligible:
+        # (classification only) bus count of the left-over internal model vs the one of this topology
+        from pandapower.pypower.idx_bus import BUS_TYPE, NONE
+        chk = copy.deepcopy(base)
+        if pf.try_run(pp.runpp, chk)[0] == "ok":
+            stale = (int((net._ppc["bus"][:, BUS_TYPE] != NONE).sum()), int(chk._ppc["internal"]["bus"].shape[0]))
+            tags.add("stale_ppc_in_net")
     viols = []
     wit = dict(seed=seed, profile=profile, options=kw)
     try:
@@ -497,7 +516,7 @@ def run_case(seed, tier, case_no):
     bad, cells, varying = compare(req, exp, ow, time_steps)
     if bad:
         mech = classify_values(bad, req, base, ctrls, time_steps, {k: v for k, v in kw.items() if k != "recycle"}, ow, all_rec,
-                               "recycle_trafo" in tags, eligible)
+                               "recycle_trafo" in tags, eligible, stale)
         b = max(bad, key=lambda x: x[2])
         viols.append(common.viol("time series output differs from a fresh power flow of the same step: " + b[3], mechanism=mech,
                                  n_bad_outputs=len(bad), kinds=sorted({x[1] for x in bad}), others=[x[3] for x in bad[:4]], **wit))
